@@ -140,6 +140,65 @@ let handle kind c =
        if not ok_new then prop "posted-verbatim" "the POSTed body differs from local/<week>.json";
        if not ok_old then prop "posted-verbatim" "the POSTed body of a leftover report differs from its file"
      | _ -> ())
+  | "seq" ->
+    (* several runs of one process on one directory; every run is judged on
+       the count files as they are at that run *)
+    let u = next_cfg c in
+    let cfgv = next_bytes c in
+    let nruns = next_int c in
+    for run = 1 to nruns do
+      let start = next_z c in
+      let week = next_bytes c in
+      let lastweek = next_bytes c in
+      let x = next_n c in
+      let d = next_list c (fun c ->
+          let name = next_bytes c in
+          let e = next_z c in
+          let f = next_file c in
+          { d_name = name; d_end = e; d_file = f }) in
+      let remaining = next_int c in
+      let outcome = next c in
+      let p = { rp_gate = true; rp_cfg = u; rp_cfgver = cfgv; rp_week = week; rp_lastweek = lastweek;
+                rp_x = x; rp_start = start } in
+      let (model, deleted) = run_uploader p d in
+      let files = List.map (fun e -> e.d_file) (expired_now start d) in
+      let tag s = Printf.sprintf "run%d-%s" run s in
+      let mremaining = List.length d - List.length deleted in
+      if remaining <> mremaining then
+        diff (tag "count-files-left") ~model:(string_of_int mremaining) ~impl:(string_of_int remaining);
+      (match outcome, model with
+       | "none", None -> ()
+       | "none", Some _ -> diff (tag "outcome") ~model:"report" ~impl:"none"
+       | "local", Some (ml, mu) ->
+         let shape = next_bool c in
+         let il = next_report c in
+         if not shape then prop "extra-fields" "local report has members outside the report format";
+         check_eq (tag "local-report") show_report (norm_report ml) (norm_report il);
+         (match mu with Some _ -> diff (tag "outcome") ~model:"upload report written" ~impl:"local only" | None -> ());
+         report_failures (local_check files il)
+       | "both", Some (ml, mu) ->
+         let shape = next_bool c in
+         let il = next_report c in
+         let iu = next_report c in
+         if not shape then prop "extra-fields" "a report has members outside the report format";
+         check_eq (tag "local-report") show_report (norm_report ml) (norm_report il);
+         (match mu with
+          | None -> diff (tag "outcome") ~model:"local only" ~impl:"upload report written"
+          | Some mu -> check_eq (tag "upload-report") show_report (norm_report mu) (norm_report iu));
+         report_failures (local_check files il);
+         report_failures (report_check u files il iu)
+       | ("local" | "both") as o, None ->
+         (* reports although the model has none: still judge them on the current files *)
+         let _shape = next_bool c in
+         let il = next_report c in
+         diff (tag "outcome") ~model:"none" ~impl:o;
+         report_failures (local_check files il);
+         if o = "both" then begin
+           let iu = next_report c in
+           report_failures (report_check u files il iu)
+         end
+       | o, _ -> diff (tag "outcome") ~model:"?" ~impl:o)
+    done
   | k -> diff "unknown-case-kind" ~model:k ~impl:"-"
 
 let () = run_file Sys.argv.(1) handle
